@@ -8,7 +8,7 @@ Local Open Scope Z_scope.
 (** a case is either one EndBlocker call on a prepared state or a history of steps on one keeper *)
 Inductive case :=
 | CSingle (p : params) (st : state) (h : Z) (obs : outcome)
-| CHist (p : params) (e : henv) (rates0 : list rate_entry) (steps : list (hstep * hobs))
+| CHist (p : params) (rates0 : list rate_entry) (steps : list (henv * hstep * hobs))
 (** parameter acceptance: Params.Validate result, MsgEditOracleParams result (None = not applicable),
     stored parameters as expected afterwards *)
 | CParams (p : params) (validate_ok : bool) (edit_ok : option bool) (stored_ok : bool).
@@ -52,12 +52,12 @@ Definition hstep_agrees (r : option (hstate * list (nat * Z))) (o : hobs) : bool
       votes_eqb (hs_votes s) (ho_votes o) && evs_eqb (hs_prevotes s) (ho_prevotes o)
   end.
 
-Fixpoint hist_cmp (p : params) (e : henv) (s : hstate) (l : list (hstep * hobs)) : bool :=
+Fixpoint hist_cmp (p : params) (s : hstate) (l : list (henv * hstep * hobs)) : bool :=
   match l with
   | [] => true
-  | (x, o) :: r =>
+  | (e, x, o) :: r =>
       let res := hist_step true p e s x in
-      hstep_agrees res o && match res with None => true | Some (s', _) => hist_cmp p e s' r end
+      hstep_agrees res o && match res with None => true | Some (s', _) => hist_cmp p s' r end
   end.
 
 (** the code accepts exactly the parameter values of [Spec.params_valid], directly and through an edit;
@@ -68,12 +68,12 @@ Definition params_accept_ok (p : params) (v : bool) (ed : option bool) (st : boo
 Definition mismatch (c : case) : bool :=
   match c with
   | CSingle p st h obs => negb (outcome_eqb (end_block true p st h) obs)
-  | CHist p e rs steps => negb (hist_cmp p e (mkHS rs [] []) steps)
+  | CHist p rs steps => negb (hist_cmp p (mkHS rs [] []) steps)
   | CParams p v ed st => negb (params_accept_ok p v ed st)
   end.
 Definition violates (c : case) : bool :=
   match c with
   | CSingle p st h obs => negb (Pb p st h obs)
-  | CHist p e rs steps => negb (Pb_hist p e rs [] [] steps)
+  | CHist p rs steps => negb (Pb_hist p rs [] [] steps)
   | CParams p v ed st => negb (params_accept_ok p v ed st)
   end.
